@@ -55,11 +55,10 @@ class QueueSpec(Spec):
 
 
 def _limit_decision(f, len_term, lim_term, interp_qual):
-    """First decision of path f on the limit comparison -> (reached: bool | None, node, problem text | None)."""
-    seen_mut = False
+    """First decision of path f on the limit comparison -> (reached: bool | None, node, problem text | None).
+    Decisions are keyed on the lengths *at entry* (the interpreter shifts ``len(self.x)`` by the appends / pops made so
+    far), so a test made after a mutation is read as a statement about the pre-state."""
     for e in f.log:
-        if e[0] == "listop" and e[2] in len_term:
-            seen_mut = True
         if e[0] == "callout":
             break
         if e[0] != "decide":
@@ -70,8 +69,6 @@ def _limit_decision(f, len_term, lim_term, interp_qual):
         terms = dict(key[0])
         if set(terms) != {len_term, lim_term}:
             continue
-        if seen_mut:
-            raise Unsupported(f"{interp_qual}: limit compared after the list was modified")
         a, b, c = terms[len_term], terms[lim_term], key[1]
         if (a, b) == (1, -1):      # len - lim >= c   (expected c == 0: "limit reached")
             off = c
@@ -171,7 +168,8 @@ def check(ctx):
                     elif rec["origin"][2] != "first":
                         ok, detail = False, "the object is delivered to the newest waiting get, not the oldest"
                 if ok and actual.startswith("raise") and mutations:
-                    ok, detail = False, "QueueOverflow is raised after the queue was already modified"
+                    ok, detail = False, ("QueueOverflow is raised after the queue was already modified"
+                                    + (": the refused object stays stored in `pending` and is delivered later" if stores else ""))
                 if not ok and detail is None:
                     if expected == "consult-limit":
                         detail = ("with no waiting get and a size limit set, the outcome does not depend on len(pending) vs size: "
